@@ -1030,9 +1030,12 @@ def handle_ifs(args, op_range=None):
 def build_wildcard_re(lookup_value):
     regex = QUESTION_MARK_RE.sub('.', STAR_RE.sub('.*', lookup_value))
     if regex != lookup_value:
-        # this will be a regex match"""
-        compiled = re.compile(f'^{regex.lower()}$')
-        return lambda x: isinstance(x, str) and compiled.match(x.lower()) is not None
+        # this will be a regex match: only ? and * are wildcards, every other
+        # character (eg: . ( + [ or a line break) stands for itself
+        regex = ''.join({'*': '.*', '?': '.'}.get(c, re.escape(c))
+                        for c in lookup_value.lower())
+        compiled = re.compile(regex, re.DOTALL)
+        return lambda x: isinstance(x, str) and compiled.fullmatch(x.lower()) is not None
     else:
         return None
 
